@@ -1393,6 +1393,140 @@ func run(args []string) error {
 	// phase B: 7 blocks, one transaction in the pool
 	sweep("chain of 7 blocks")
 
+	// 0b. structurally skewed but decodable transactions built from the node's real
+	// unspent outputs (those of the wallet's addresses first), sent to every endpoint
+	// that takes an encoded transaction, with the real wallet ids
+	{
+		var wux coin.UxArray
+		if m, err := n.v.GetUnspentsOfAddrs(n.wltAddr); err == nil {
+			for _, a := range n.wltAddr {
+				wux = append(wux, m[a]...)
+			}
+		}
+		for _, ux := range n.unspent {
+			if len(wux) < 4 {
+				wux = append(wux, ux)
+			}
+		}
+		type skew struct {
+			name string
+			t    coin.Transaction
+		}
+		var skews []skew
+		base := func(k int) coin.Transaction {
+			var t coin.Transaction
+			var coins uint64
+			for i := 0; i < k && i < len(wux); i++ {
+				t.In = append(t.In, wux[i].Hash())
+				coins += wux[i].Body.Coins
+			}
+			t.Out = []coin.TransactionOutput{{Address: n.w.Addrs[1], Coins: coins, Hours: 1}}
+			t.Sigs = make([]cipher.Sig, len(t.In)) // unsigned: one null signature per input
+			t.InnerHash = t.HashInner()
+			t.UpdateHeader() //nolint:errcheck
+			return t
+		}
+		fix := func(t coin.Transaction) coin.Transaction {
+			t.InnerHash = t.HashInner()
+			t.UpdateHeader() //nolint:errcheck
+			return t
+		}
+		someSig := cipher.MustSigFromHex(strings.Repeat("1b", 65))
+		for _, k := range []int{1, 2, 3} {
+			if k > len(wux) {
+				break
+			}
+			b := base(k)
+			skews = append(skews, skew{fmt.Sprintf("unsigned_%din", k), b})
+			t := b
+			t.Sigs = nil
+			skews = append(skews, skew{fmt.Sprintf("no_sigs_%din", k), fix(t)})
+			t = b
+			t.Sigs = append([]cipher.Sig{}, b.Sigs[:k-1]...)
+			if k > 1 {
+				skews = append(skews, skew{fmt.Sprintf("sigs_shorter_null_%din", k), fix(t)})
+				t.Sigs = append([]cipher.Sig{}, t.Sigs...)
+				t.Sigs[0] = someSig
+				skews = append(skews, skew{fmt.Sprintf("sigs_shorter_nonnull_%din", k), fix(t)})
+			}
+			t = b
+			t.Sigs = append(append([]cipher.Sig{}, b.Sigs...), cipher.Sig{})
+			skews = append(skews, skew{fmt.Sprintf("sigs_longer_%din", k), fix(t)})
+			t = b
+			t.Sigs = append(append([]cipher.Sig{}, b.Sigs...), someSig, someSig)
+			skews = append(skews, skew{fmt.Sprintf("sigs_longer_nonnull_%din", k), fix(t)})
+			t = b
+			t.Sigs = append([]cipher.Sig{}, b.Sigs...)
+			t.Sigs[0] = someSig
+			skews = append(skews, skew{fmt.Sprintf("garbage_sig_%din", k), fix(t)})
+			t = b
+			t.In = append(append([]cipher.SHA256{}, b.In...), b.In[0])
+			skews = append(skews, skew{fmt.Sprintf("dup_input_sigs_short_%din", k), fix(t)})
+			t.Sigs = make([]cipher.Sig, len(t.In))
+			skews = append(skews, skew{fmt.Sprintf("dup_input_%din", k), fix(t)})
+			t = b
+			t.Out = nil
+			skews = append(skews, skew{fmt.Sprintf("zero_outputs_%din", k), fix(t)})
+			t = b
+			t.Out = append(append([]coin.TransactionOutput{}, b.Out...), b.Out[0])
+			skews = append(skews, skew{fmt.Sprintf("dup_output_%din", k), fix(t)})
+			t = b
+			t.InnerHash[0] ^= 1
+			skews = append(skews, skew{fmt.Sprintf("bad_inner_hash_%din", k), t})
+			t = b
+			t.Length += 7
+			skews = append(skews, skew{fmt.Sprintf("bad_length_%din", k), t})
+		}
+		{
+			var t coin.Transaction // no inputs at all, one signature
+			t.Out = []coin.TransactionOutput{{Address: n.w.Addrs[1], Coins: 1000000, Hours: 1}}
+			t.Sigs = []cipher.Sig{{}}
+			skews = append(skews, skew{"no_inputs_one_sig", fix(t)})
+		}
+		post := func(path string, body map[string]interface{}, note string) {
+			rt, ok := routeOf(path)
+			if !ok {
+				return
+			}
+			b, _ := json.Marshal(body)
+			exec("requests", rt, reqSpec{method: "POST", path: path, ctype: "application/json", body: string(b), note: note})
+		}
+		type wl struct{ id, pw string }
+		wallets := []wl{{"plain.wlt", ""}, {n.encWlt, "pw"}, {n.encWlt, "wrong"}, {"nonexistent.wlt", ""}}
+		for _, sk := range skews {
+			raw, err := sk.t.Serialize()
+			if err != nil {
+				continue
+			}
+			enc := hex.EncodeToString(raw)
+			nIn, nSig := len(sk.t.In), len(sk.t.Sigs)
+			idx := [][]int{nil, {0}, {nIn - 1}, {nIn}, {nSig}, {nSig - 1}, {0, 0}, {-1}, {0, nIn + 5}}
+			for k := 0; k < nIn && k < 3; k++ {
+				idx[0] = append(idx[0], k)
+			}
+			idx = append(idx, nil) // all inputs (empty sign_indexes)
+			for wi, wlt := range wallets {
+				for ii, ix := range idx {
+					if !thorough && wi > 0 && ii > 2 {
+						continue
+					}
+					body := map[string]interface{}{"wallet_id": wlt.id, "encoded_transaction": enc}
+					if wlt.pw != "" {
+						body["password"] = wlt.pw
+					}
+					if ix != nil {
+						body["sign_indexes"] = ix
+					}
+					post("/api/v2/wallet/transaction/sign", body, "skewed transaction: "+sk.name)
+				}
+			}
+			for _, un := range []bool{false, true} {
+				post("/api/v2/transaction/verify", map[string]interface{}{"encoded_transaction": enc, "unsigned": un}, "skewed transaction: "+sk.name)
+			}
+			post("/api/v1/injectTransaction", map[string]interface{}{"rawtx": enc, "no_broadcast": true}, "skewed transaction: "+sk.name)
+		}
+	}
+
 	// 1. the F6 witness first: a new transaction spending an output that a confirmed transaction spent
 	var verifyRoute route
 	for _, rt := range routes {
